@@ -228,3 +228,51 @@ def _mk_single(name, event_cls):
 
 _mk_single("handle_OFPST_DESC", of_01.SwitchDescReceived)
 _mk_single("handle_OFPST_AGGREGATE", of_01.AggregateFlowStatsReceived)
+
+
+# ---------------------------------------------------------------- messages that are NOT statistics replies leave stored parts alone
+# (added 2026-09-25 after seeded change C17_9 emptied the stored parts in the error handler: any OFPT_ERROR - e.g. for a rejected
+# flow-mod with another xid - arriving between two parts of a multipart reply made the aggregated event lose the earlier parts)
+
+class SendSock(object):
+  pass
+
+
+def _mk_frame(hname, mk_msg):
+  def u(b):
+    con, nexus, cs, halted = event_targets(b)
+    p1, p2 = b.raw_new(of.ofp_stats_reply, uid=1), b.raw_new(of.ofp_stats_reply, uid=2)
+    stored = b.list([p1, p2])
+    b.set(con, "_previous_stats", stored)
+    b.set(con, "dpid", 5)
+    b.set(con, "ID", 1)
+    msg = mk_msg(b)
+    if b.mode == "sym":
+      cs[CN + "Connection.send"] = CallSpec("opaque", envelope="queues a message (C20)")
+    else:
+      con.send = lambda m: None
+    def run(con, msg):
+      getattr(of_01.DefaultOpenFlowHandlers, hname)(con, msg)
+      return (con._previous_stats, [x for x in con._previous_stats])
+    return Case(run, [con, msg], calls=cs, raises={}, ensures={
+      "the_parts_stored_for_a_statistics_reply_in_progress_are_untouched":
+        lambda res: res[0] is stored and len(res[1]) == 2 and res[1][0] is p1 and res[1][1] is p2,
+    })
+  u.__name__ = hname + "_leaves_a_statistics_reply_in_progress_alone"
+  u.bound = "two parts stored"
+  unit(P, target=CN + "DefaultOpenFlowHandlers." + hname)(u)
+
+
+def _xid_msg(cls):
+  def mk(b):
+    m = b.new(cls)
+    b.set(m, "_xid", b.int("msg.xid", 0, 0xffffffff))
+    return m
+  return mk
+
+
+for _h, _c in (("handle_ERROR", of.ofp_error), ("handle_PACKET_IN", of.ofp_packet_in), ("handle_BARRIER_REPLY", of.ofp_barrier_reply),
+               ("handle_FLOW_REMOVED", of.ofp_flow_removed), ("handle_ECHO_REQUEST", of.ofp_echo_request),
+               ("handle_ECHO_REPLY", of.ofp_echo_reply), ("handle_GET_CONFIG_REPLY", of.ofp_get_config_reply),
+               ("handle_HELLO", of.ofp_hello)):
+  _mk_frame(_h, _xid_msg(_c))
